@@ -19,7 +19,10 @@ Junk == <<"junk">>
 CookieVals == {CookieFor(t) : t \in Tuple} \cup {Junk}
 CookieLists == {<<>>} \cup {<<c>> : c \in CookieVals} \cup {<<c, d>> : c \in CookieVals, d \in CookieVals}
 
-Request == [t : Tuple, cookies : CookieLists]
+\* what the negotiation WOULD say about the request if it were looked at: acceptable, a KE payload in another group than the one the responder chooses, no
+\* acceptable proposal.  An unverified source learns nothing of this: whatever the request is like, without the right cookie it gets the COOKIE notification
+Negs == {"ok", "wrongke", "noproposal"}
+Request == [t : Tuple, cookies : CookieLists, neg : Negs]
 
 \* What the MAC of the cookie can bind is what its INPUT determines.  The input is an octet string built from the initiator SPI (8 octets), the nonce
 \* (16 .. 256 octets: variable) and the source address (4 or 16 octets: two lengths).  Scaled down here: SPI 1 octet, nonce 1 .. 3 octets, address 1 octet
@@ -45,13 +48,15 @@ Valid(req) == req.cookies # <<>> /\ req.cookies[1] = CookieFor(req.t)
 Respond(h, req) ==
   IF Armed(h) /\ ~Valid(req)
   THEN [reply |-> "COOKIE", cookie |-> CookieFor(req.t), dh |-> 0, left |-> 0]     \* nothing but the notification, no DH, no IKE_SA
+  ELSE IF req.neg = "wrongke" THEN [reply |-> "INVALID_KE", cookie |-> <<>>, dh |-> 0, left |-> 0]
+  ELSE IF req.neg = "noproposal" THEN [reply |-> "NO_PROPOSAL", cookie |-> <<>>, dh |-> 0, left |-> 0]
   ELSE [reply |-> "INIT_OK", cookie |-> <<>>, dh |-> 2, left |-> 1]                \* normal answer: keygen + shared secret, half-open IKE_SA
 
 HalfOpenCounts == 0..(Threshold + 2)
 \* the right cookie damaged in length only: cut to its first k octets (k = 0: an empty notification) or extended by one octet - never the cookie itself
 Cut(t, k) == <<"cut", t.spi, t.nonce, t.addr, k>>
 CutLengths == {0, 1, 16, 33}
-CutCases == {[h |-> h, req |-> [t |-> t, cookies |-> <<Cut(t, k)>>]] : h \in HalfOpenCounts, t \in Tuple, k \in CutLengths}
+CutCases == {[h |-> h, req |-> [t |-> t, cookies |-> <<Cut(t, k)>>, neg |-> "ok"]] : h \in HalfOpenCounts, t \in Tuple, k \in CutLengths}
 \* how the h half-open IKE_SAs came about does not matter - they are counted as IKE_SAs: requests of distinct initiators, one request replayed h times,
 \* or one initiator SPI with a fresh nonce and KE value each time
 Fills == {"distinct", "replayed", "samespi"}
@@ -64,10 +69,10 @@ CookieFirst == \A c \in Cases : LET o == Respond(c.h, c.req) IN
 \* a cookie is accepted only when returned together with the same SPI, nonce and address
 Bound == \A c \in Cases : \A t2 \in Tuple :
             (Armed(c.h) /\ c.req.cookies # <<>> /\ c.req.cookies[1] = CookieFor(t2) /\ t2 # c.req.t) => Respond(c.h, c.req).reply = "COOKIE"
-NotArmedNoCookieNeeded == \A c \in Cases : ~Armed(c.h) => Respond(c.h, c.req).reply = "INIT_OK"
+NotArmedNoCookieNeeded == \A c \in Cases : ~Armed(c.h) => Respond(c.h, c.req).reply # "COOKIE"
 \* the initiator side: repeating the identical request with the cookie placed first is accepted
 RetryAccepted == \A h \in HalfOpenCounts : \A t \in Tuple :
-                   Respond(h, [t |-> t, cookies |-> <<Respond(h, [t |-> t, cookies |-> <<>>]).cookie>>]).reply = "INIT_OK"
+                   Respond(h, [t |-> t, cookies |-> <<Respond(h, [t |-> t, cookies |-> <<>>, neg |-> "ok"]).cookie>>, neg |-> "ok"]).reply = "INIT_OK"
                    \/ ~Armed(h)
 
 ASSUME CookieFirst
@@ -78,7 +83,7 @@ ASSUME RetryAccepted
 \* which verdicts the property fixes: a right cookie in second position behind a wrong one is not constrained by the statement
 Strict(c) == ~(Armed(c.h) /\ Len(c.req.cookies) = 2 /\ c.req.cookies[1] # CookieFor(c.req.t) /\ c.req.cookies[2] = CookieFor(c.req.t))
 
-Vectors == {[h |-> c.h, t |-> c.req.t, cookies |-> c.req.cookies, fill |-> c.fill, out |-> Respond(c.h, c.req), strict |-> Strict(c)] : c \in Cases}
+Vectors == {[h |-> c.h, t |-> c.req.t, cookies |-> c.req.cookies, neg |-> c.req.neg, fill |-> c.fill, out |-> Respond(c.h, c.req), strict |-> Strict(c)] : c \in Cases}
 ASSUME OutFile = "" \/ JsonSerialize(OutFile, [n |-> Cardinality(Vectors), threshold |-> Threshold, vectors |-> Vectors,
                                                 collision |-> [a |-> Collision[1], b |-> Collision[2]]])
 ASSUME PrintT(<<"CASES", Cardinality(Cases)>>)
